@@ -31,7 +31,7 @@ ASSUMPTIONS = [
 ]
 FLOORS = {
     "quick": {"eval:line_coordinates": 20000, "eval:grid_coordinates": 1500, "eval:spacing_to_size": 20000,
-              "eval:profile_coordinates": 100, "eval:shape_to_spacing": 100, "distinct_nontrivial": 5000, "class:long_line": 100, "class:long_line_50k": 15, "eval:ownership": 350},
+              "eval:profile_coordinates": 100, "eval:shape_to_spacing": 100, "distinct_nontrivial": 5000, "class:long_line": 100, "class:long_line_50k": 15, "eval:ownership": 350, "eval:arguments_unmodified": 40000, "class:ndarray_shape_and_region": 50},
     "thorough": {"eval:line_coordinates": 200000, "eval:grid_coordinates": 10000, "distinct_nontrivial": 50000},
 }
 JOBS = {"quick": 1, "thorough": 16}
@@ -258,11 +258,27 @@ def install(tap, run):
                           {"point1": list(p1), "point2": list(p2), "size": size, "extra_coords": a["extra_coords"],
                            "coordinates": [np.asarray(c) for c in coords], "distances": np.asarray(dist)}, key="profile")
 
-    tap.function(vc, "line_coordinates", post=post_line)
-    tap.function(vc, "spacing_to_size", post=post_s2s)
-    tap.function(vc, "grid_coordinates", post=post_grid)
-    tap.function(vc, "shape_to_spacing", post=post_shape_to_spacing)
-    tap.function(vc, "profile_coordinates", post=post_profile)
+    from .. import core
+
+    def pre(ev):
+        return (core.digest(ev.args), {k: (np.array(v, copy=True) if isinstance(v, np.ndarray) else v) for k, v in ev.args.items()})
+
+    def pure(post):
+        def wrapper(ev):
+            digest_before, kept = ev.pre
+            run.evaluated("arguments_unmodified")
+            if core.digest(ev.args) != digest_before:
+                run.violation("arguments_unmodified", "%s modified one of its arguments in place" % ev.name,
+                              {"callable": ev.name, "arguments_before": kept, "arguments_after": dict(ev.args)}, key="purity:" + ev.name)
+                ev.args = kept  # judge the result against what the caller passed
+            post(ev)
+        return wrapper
+
+    tap.function(vc, "line_coordinates", pre=pre, post=pure(post_line))
+    tap.function(vc, "spacing_to_size", pre=pre, post=pure(post_s2s))
+    tap.function(vc, "grid_coordinates", pre=pre, post=pure(post_grid))
+    tap.function(vc, "shape_to_spacing", pre=pre, post=pure(post_shape_to_spacing))
+    tap.function(vc, "profile_coordinates", pre=pre, post=pure(post_profile))
 
 
 # ----------------------------------------------------------------------
@@ -433,12 +449,17 @@ def run_case(run, tap, stream, index, rng):
             region = _random_region(rng, degenerate=False)
             pixel = bool(rng.random() < 0.5)
             shape = (int(rng.integers(2, 40)), int(rng.integers(2, 40)))
+            if rng.random() < 0.5:  # containers the caller keeps using: ndarray shape / region, reused for the calls below
+                shape = np.array(shape)
+                region = np.array(region)
+                run.count("class:ndarray_shape_and_region")
             spacing = vc.shape_to_spacing(region, shape, pixel_register=pixel)
             by_shape = vc.grid_coordinates(region, shape=shape, pixel_register=pixel)
             by_spacing = vc.grid_coordinates(region, spacing=spacing, pixel_register=pixel)
             run.evaluated("shape_spacing_roundtrip")
             tol = max(ref.line_tolerance(region[0], region[1]), ref.line_tolerance(region[2], region[3]))
             same = all(a.shape == b.shape and np.max(np.abs(a - b)) <= 2 * tol for a, b in zip(by_shape, by_spacing))
+            region, shape = [float(v) for v in region], tuple(int(v) for v in shape)
             run.mark_nontrivial("roundtrip", region, shape, pixel)
             if not same:
                 run.violation("shape_spacing_roundtrip", "grid_coordinates(spacing=shape_to_spacing(shape)) differs from grid_coordinates(shape=shape)",
